@@ -87,6 +87,17 @@ def run(ctx):
             if N == 1024:
                 l = 'tlwe 6 %s 0 %s' % (base, withkey)
                 cases.append((l, l, 'optim', ('phasefft', k, N, c1, keyp)))
+    # variance annotation: var1 + p^2 * var2 for |p| < 2^15 (inputs carry 1/4 and 1/16; the result times 16 is an integer)
+    vl = []; vexp = []
+    for kind, ops in ((0, (0, 1, 2, 3, 4, 5, 6, 7)), (1, (0, 1, 2, 3, 20, 21, 22))):
+        for opc in ops:
+            for p in (0, 1, -1, 3, -7, 2**15 - 1, -(2**15 - 1), rng.randrange(-2**15 + 1, 2**15)):
+                n = rng.choice([1, 3, 8, 9, 16])
+                vl.append('variance %d %d %d %d' % (kind, opc, n, p))
+                vexp.append({0: 5, 1: 5, 2: 4 + p * p, 3: 4 + p * p, 4: 4, 5: 0, 6: 0, 7: 4, 20: 0, 21: 4, 22: 0}[opc])
+    for l, o, e in zip(vl, vlib.run_lines(exes['optim'], vl), vexp):
+        ctx.count(l)
+        if o.strip() != str(e): ctx.report('variance-annotation', '%s: the variance annotation of the result is %s/16, the rule var1 + p^2*var2 (inputs 1/4 and 1/16) gives %d/16' % (l, o.strip(), e), {'case': l, 'impl': o, 'expected': e})
     impl = {}
     for b in ('optim', 'debug'):
         idx = [i for i, c in enumerate(cases) if c[2] == b]
